@@ -177,13 +177,82 @@ class StmtMixin:
                 out.append(Outcome("raise", r.st, r.exc))
                 continue
             tr = self.truth(r.st, r.val)
-            s1 = r.st.fork(tr)
-            s2 = r.st.fork(z3.Not(tr))
-            if self.feasible(s1):
-                out.extend(self.exec_block(s.body, s1))
-            if self.feasible(s2):
-                out.extend(self.exec_block(s.orelse, s2) if s.orelse else [Outcome("normal", s2)])
+            base = r.st
+            s1 = base.fork(tr)
+            s2 = base.fork(z3.Not(tr))
+            o1 = self.exec_block(s.body, s1) if self.feasible(s1) else []
+            o2 = (self.exec_block(s.orelse, s2) if s.orelse else [Outcome("normal", s2)]) if self.feasible(s2) else []
+            n1 = [o for o in o1 if o.kind == "normal"]
+            n2 = [o for o in o2 if o.kind == "normal"]
+            merged = None
+            if len(n1) == 1 and len(n2) == 1:
+                merged = self.merge_states(base, n1[0].st, n2[0].st)
+            if merged is not None:
+                out.extend(o for o in o1 + o2 if o.kind != "normal")
+                out.append(Outcome("normal", merged))
+            else:
+                out.extend(o1 + o2)
         return out
+
+    def merge_states(self, base: State, a: State, b: State):
+        """join two normal continuations of a branch into one state (selector boolean); None if not mergeable"""
+        nb = len(base.pc)
+        if a.pc[:nb] != base.pc or b.pc[:nb] != base.pc:
+            if not all(x.eq(y) for x, y in zip(a.pc[:nb], base.pc)) or not all(x.eq(y) for x, y in zip(b.pc[:nb], base.pc)):
+                return None
+        if set(a.env) != set(b.env) and False:
+            return None
+        if len(a.trace) != len(b.trace) or any(x is not y for x, y in zip(a.trace, b.trace)):
+            if a.trace != b.trace:
+                return None
+        if a.exc_reg.t is not b.exc_reg.t and not a.exc_reg.t.eq(b.exc_reg.t):
+            return None
+        if a.seg is not b.seg or a.tags[:len(base.tags)] != base.tags:
+            return None
+        m = base.copy()
+        sel = fresh("br", B)
+        ea, eb = a.pc[nb:], b.pc[nb:]
+        if ea:
+            m.pc.append(z3.Implies(sel, z3.And(*ea)))
+        if eb:
+            m.pc.append(z3.Implies(z3.Not(sel), z3.And(*eb)))
+        env = {}
+        for n in set(a.env) & set(b.env):
+            va, vb = a.env[n], b.env[n]
+            if va.t.eq(vb.t):
+                env[n] = va if va.ty == vb.ty else SV(va.t, ANY)
+            else:
+                ty = va.ty if va.ty == vb.ty else (OPT(va.ty) if vb.ty.kind == "none" and va.ty.kind not in ("any", "none", "opt")
+                                                   else (OPT(vb.ty) if va.ty.kind == "none" and vb.ty.kind not in ("any", "none", "opt") else ANY))
+                if ty == ANY and (va.ty.kind in ("dict", "list", "set", "tuple", "inst", "lib", "pair") or vb.ty.kind in ("dict", "list", "set", "tuple", "inst", "lib", "pair")) and va.ty != vb.ty:
+                    return None     # would lose a structural type: keep the paths apart
+                mv = fresh("mg_" + n)
+                m.pc.append(z3.Implies(sel, mv == va.t))
+                m.pc.append(z3.Implies(z3.Not(sel), mv == vb.t))
+                env[n] = SV(mv, ty)
+        # names defined on one side only stay out of the merged environment (use would be an UnboundLocalError on the other path)
+        m.env = env
+        for c in m.heap:
+            ha, hb = a.heap[c], b.heap[c]
+            if ha.eq(hb):
+                m.heap[c] = ha
+            else:
+                hm = fresh("mg." + c, ha.sort())
+                m.pc.append(z3.Implies(sel, hm == ha))
+                m.pc.append(z3.Implies(z3.Not(sel), hm == hb))
+                m.heap[c] = hm
+        ida = {x.get_id() for x in a.owned}
+        m.owned = [x for x in b.owned if x.get_id() in ida]
+        m.uses = a.uses | b.uses
+        m.ghost = dict(a.ghost)
+        for k, v in b.ghost.items():
+            if k in m.ghost and z3.is_expr(v) and z3.is_expr(m.ghost[k]) and not v.eq(m.ghost[k]):
+                m.ghost[k] = z3.If(sel, m.ghost[k], v)
+            elif k not in m.ghost:
+                m.ghost[k] = v
+        m.defs = list(a.defs) + [d for d in b.defs if d.get_id() not in {x.get_id() for x in a.defs}]
+        m.suspended = a.suspended if a.suspended.eq(b.suspended) else z3.If(sel, a.suspended, b.suspended)
+        return m
 
     def st_Raise(self, s, st):
         if s.exc is None:
@@ -337,6 +406,8 @@ class StmtMixin:
             del self.notes[saved[4]:]
         comps = set()
         for o in res:
+            if o.kind not in ("normal", "continue"):
+                continue          # paths that leave the loop carry nothing into the next iteration
             for c in self.comps:
                 if not o.st.heap[c].eq(start[c]):
                     comps.add(c)
@@ -501,6 +572,9 @@ class StmtMixin:
         s_exit = h.fork(i == ln, "exit")
         if self.feasible(s_body):
             item = s_body.l_item(a, i) if is_list else s_body.t_item(a, i)
+            if not is_list:
+                from .comps import tmem
+                s_body.assume(tmem(z3.Select(s_body.heap["t_item"], a), ln, item))
             itemv = self.typed(s_body, item, ety)
             if mode == "enumerate":
                 itemv = SV(Val.pair(vint(i), itemv.t), PAIR(TINT, ety))
